@@ -309,3 +309,18 @@ PROPS = {
         "rule": "Data-server scenarios: 1-3 items, per item 1-12 alternating requests merged in random wire order, pool 1-4, inbound stream cut per line / merged / at random byte offsets (both terminators), snapshot availability in {True, False, None, raises}, subscribe / unsubscribe outcomes in {ok, SubscribeError, FailureError, RuntimeError}, 0-2 events submitted from inside adapter calls (any item), 0-2 adapter-owned threads with 1-4 listener calls each, probe events after quiescence, credentials and early delivery; every run under a seeded random schedule; lock-step comparison after every chunk; plus fine-grained runs (line-level preemption inside subscription.py / server.py); non-trivial = a request arrived while its item's dequeuer was working, or a skipped subscription (chunk-level), every run (fine-grained)",
     },
 }
+
+# ---- the "no state outside the instances" tie (Gen/State.lean vs Spec/State.lean): which properties' models rest on it
+_STATE = {
+    "AriVerif.Props.StateCodec": ["C03", "C05", "C06", "C07", "C08", "C09", "C14", "C17"],
+    "AriVerif.Props.StateSub": ["C01", "C02", "C03", "C17", "C19"],
+    "AriVerif.Props.StateServer": ["C01", "C04", "C09", "C10", "C11", "C12", "C13", "C14", "C15", "C16", "C18", "C20"],
+}
+for _mod, _ps in _STATE.items():
+    for _p in _ps:
+        _P = PROPS[_p]
+        _P["lean"] = list(_P["lean"]) + [_mod]
+        _P["gen"] = list(_P.get("gen", [])) + (["State"] if "State" not in _P.get("gen", []) else [])
+        _t = "purity of the codec layer / instance ownership of all state is itself extracted from the source (Gen.sharedState: writes to module-level or class-level state, caching decorators, mutable defaults, class-level containers, descriptors) and compared with the record Spec.sharedState by theorem"
+        if _t not in _P["trusted"]:
+            _P["trusted"] = list(_P["trusted"]) + [_t]
